@@ -2,14 +2,16 @@
 
 PROP = dict(
     level="model_checking",
-    technique="TLA+ spec Metrics.tla model-checked by TLC at two grains (one action per public call; shared-memory sub-steps of two interleaved threads); every transition of the per-call graph replayed into a real metrics.MultiMetrics and read back through Get (spec->code transition tour)",
+    technique="TLA+ spec Metrics.tla model-checked by TLC at two grains (one action per public call; shared-memory sub-steps of two interleaved threads); every transition of the per-call graph replayed into a real metrics.MultiMetrics (directly and through sample's lazy registration site) and read back through Get (spec->code transition tour); concurrent calls on the real object under the race detector against the spec's schedule-independent invariants",
     design_ref="DESIGN.md §5 C33",
-    level_text="placeholder",
-    level_note="placeholder",
-    assumptions=[],
+    level_text="TLC explores every order of Register / RegisterAll / Increment / Count / Gauge / Up / Down / Store / Histogram on a counter (two in thorough), a gauge, an up-down counter, a histogram and a stored value within the value bounds, and checks ReadBack (Get = sum of increments / last value / ups minus downs), CounterMonotone and SingleCell; every generated transition is executed on a real metrics.MultiMetrics and all names are read back with Get after every step. The same graph is replayed a second time with registration done by sample.dynsamplerMetricsRecorder.RegisterMetrics/newSamplerMetricNames and increments by RecordMetrics (the lazy re-registration site). The fine-grain specification SpecFine splits every call into its sync.Map Load / LoadOrStore and atomic Add/Store/Load steps and TLC interleaves two threads (3 calls in quick, 6 in thorough) checking the same invariants plus GetLinearizable. Finally 4 goroutines issue random calls incl. Register on one real MultiMetrics under -race and the quiescent values must equal the schedule-independent totals.",
+    level_note="Exhaustive only within the bound (values <= 3, up-down within -1..1, 2 gauge/store values; 2 threads and <= 6 calls for the interleavings). The interleaved sub-steps are model-checked on the specification only (the real sub-steps have no hooks); the real code is exercised concurrently by the gotest stage whose oracle is the quiescent total plus per-reader monotonicity, not a linearizability check. A metric name has one fixed type; a name that is both Store()d and registered, Count with a negative argument and the Prometheus/OTel children are outside the property. Get answering ok=false is read as 0.",
+    assumptions=["a metric name is used with one metric type only", "bounded: counters <= 3, up-down in -1..1, 2 threads x <= 6 calls"],
     stages=[dict(kind="walk", module="Metrics", pkg="metrics", test="TestVerifC33Metrics", harness=["metrics/c33_metrics_test.go"],
-                 cfg={"quick": "MC_Metrics.cfg", "thorough": "MC_Metrics_big.cfg"}, budget={"quick": 30, "thorough": 240}),
+                 cfg={"quick": "MC_Metrics.cfg", "thorough": "MC_Metrics_big.cfg"}, budget={"quick": 40, "thorough": 300}),
             dict(kind="walk", name="MetricsSampler", module="Metrics", pkg="sample", test="TestVerifC33Sampler", harness=["sample/c33_sampler_test.go"],
                  cfg={"quick": "MC_Metrics_sampler.cfg", "thorough": "MC_Metrics_sampler.cfg"}, budget={"quick": 20, "thorough": 60}),
-            dict(kind="tlc", name="MetricsFine", module="Metrics", cfg={"quick": "MC_Metrics_fine.cfg", "thorough": "MC_Metrics_fine_big.cfg"}, workers=8)],
+            dict(kind="tlc", name="MetricsFine", module="Metrics", cfg={"quick": "MC_Metrics_fine.cfg", "thorough": "MC_Metrics_fine_big.cfg"}, workers=8),
+            dict(kind="gotest", name="MetricsConcurrent", pkg="metrics", test="TestVerifC33Concurrent",
+                 harness=["metrics/c33_concurrent_test.go"], race=True)],
 )
